@@ -71,7 +71,7 @@ from unittest import mock
 
 from . import core, tlc, zkfake
 
-INSTS = ['i%d' % k for k in range(1, 6)]
+INSTS = ['i%d' % k for k in range(1, 13)]      # generators use the first 5; gen_vanish draws from all 12
 MVERS = [1, 2, 3, 4, 5]      # 4, 5: the edges of the manifest DOMAIN (see manifest())
 PVERS = [0, 1, 2, 3, 4]
 ENV_EVS = ('Place', 'Unplace', 'SetPD', 'SetMan', 'DelMan')
@@ -88,7 +88,7 @@ def task_of(a):
     return '%010d' % int(a[1:])
 
 
-_REAL2CANON = {real_name(a): a for a in ['i%d' % k for k in range(1, 10)]}
+_REAL2CANON = {real_name(a): a for a in ['i%d' % k for k in range(1, 13)]}
 _TMP = re.compile(r'^\.(proid\.i\d+#\d{10})-(.*)$')
 
 
@@ -1132,6 +1132,39 @@ def vary(hist, rng):
                     wild(x)
                     if x[0] == 'Place' and len(x) == 4 and rng.random() < 0.5:
                         x.append(True)
+    return hist
+
+
+def gen_vanish(rng, position=None):
+    """A sync that has 3-5 instances to fetch, one or two of which VANISH
+    between the children listing and the read of their placement node (Unplace
+    applied right after the listing, before the first recorded call).  Names
+    are drawn from a pool of 12, so that under the fixed hash seed the vanished
+    instance is visited first, in the middle or last by the code's iteration
+    over its `missing` set; `position` (0 first, 1 middle, 2 last) picks the
+    vanished one by building the same kind of set the code builds (the real
+    position is read off the recorded trace afterwards, see c12.judge)."""
+    names = rng.sample(INSTS, rng.randrange(3, 6))
+    order = list(set(real_name(a) for a in names) - set())
+    canon = [_REAL2CANON[r] for r in order]
+    if position is None:
+        position = rng.randrange(3)
+    first = canon[{0: 0, 1: len(canon) // 2, 2: len(canon) - 1}[position]]
+    gone = [first]
+    if len(canon) >= 4 and rng.random() < 0.4:
+        gone.append(rng.choice([a for a in canon if a != first]))
+    hist = []
+    for a in names:
+        hist.append(['SetMan', a, rng.choice([1, 1, 3, 4])])
+        hist.append(['Place', a, rng.choice(PVERS), False])
+    extra = [a for a in INSTS if a not in names]
+    if rng.random() < 0.5:
+        hist.append(['PriorFile', rng.choice(extra), 1, 1])       # an extra entry to unlink as well
+    rng.shuffle(hist)
+    hist.append(['Boot'])
+    hist.append(['Sync', dict(conc={0: [['Unplace', a] for a in gone]}, cut=None,
+                              run=rng.random() < 0.5)])
+    hist.append(['Sync', {}])
     return hist
 
 
